@@ -106,14 +106,14 @@ def _has_forward_refs(fields):
 
 
 def units(tier):
-    return list(range(len(family.schemas(tier))))
+    return list(range(len(family.schemas(tier)) + len(family.logical_extras())))
 
 
 def run_unit(i, tier, checks):
     import fastavro as fa
 
     res = UnitResult()
-    raw = family.schemas(tier)[i]
+    raw = (family.schemas(tier) + family.logical_extras())[i]
     try:
         cases = rt.prepare(fa, raw)
     except Exception as e:
